@@ -1212,6 +1212,26 @@ def list_walks(ck, prog):
 # ---------------------------------------------------------------------------
 # the boolean function a compound condition computes
 
+def condition_leaf_counts(f):
+    """{operand spelling: how many branch conditions of f test it} (operands of && / || counted one by one)"""
+    from .cfg import estr
+    out = {}
+    for b in f.blocks.values():
+        t = b.get('term')
+        if t and isinstance(t.get('cond'), dict) and t.get('kind') != 'SwitchStmt' and not t.get('split_bool'):
+            if t.get('kind') == 'BinaryOperator':
+                leaves = [t['cond']]
+            else:
+                leaves = []
+                _logic_leaves(t['cond'], leaves)
+                # the operands before the last one have their own (BinaryOperator) blocks
+                leaves = leaves[-1:]
+            for x in leaves:
+                k = estr(x)
+                out[k] = out.get(k, 0) + 1
+    return out
+
+
 def _logic_leaves(e, out):
     while isinstance(e, dict) and e.get('k') in ('paren', 'cast') and isinstance(e.get('e'), dict):
         e = e['e']
@@ -1380,6 +1400,12 @@ def condition_functions(ck, prog):
             subs = [ck2 for ck2 in cur if ck2 not in ref and set(ck2.split(' | ')) < rl
                     and len(set(ck2.split(' | '))) == len(rl) - 1]
             if len(subs) == 1 and len(rl) >= 3:
+                lost1 = (rl - set(subs[0].split(' | '))).pop()
+                # tested as often as before somewhere in the function (the condition was split into nested tests,
+                # the operand moved): not dropped
+                refc = base.get(f.file, {}).get(f.name, {}).get('Tc', {}).get(lost1)
+                if refc is None or condition_leaf_counts(f).get(lost1, 0) >= refc:
+                    continue
                 n += 1
                 lost = sorted(rl - set(subs[0].split(' | ')))
                 r.violation('%s:%s' % (f.name, rk[:80]), f.name, f.file, f.line,
@@ -1777,6 +1803,10 @@ def fields_written(f):
     return sorted(out)
 
 
+# zero-filling or not is the constructor's business as long as every field is given a value (Cxx.Z, Cxx.N look at that)
+ALLOCATORS = {'dbus_malloc', 'dbus_malloc0', 'malloc', 'calloc'}
+
+
 def callee_identity(ck, prog):
     pid = ck.pid
     files = anchor_files(pid)
@@ -1813,7 +1843,8 @@ def callee_identity(ck, prog):
                 return (fs[0].ret, tuple(p.get('t') for p in fs[0].params)) if fs else None
             # siblings: same return and parameter types (the call still compiles with the same arguments)
             if g in have and h in have and g in known and h in known and sig(g) == sig(h) and sig(g) is not None \
-                    and not any(w in g or w in h for w in ('verbose', 'warn', 'log')):
+                    and not any(w in g or w in h for w in ('verbose', 'warn', 'log')) \
+                    and not {g, h} <= ALLOCATORS:
                 line = next((c['line'] for b, i, c in f.calls(h)), f.line)
                 r.violation(key, f.name, f.file, line, '%s now calls %s where the reference tree calls %s' % (f.name, h, g))
                 continue
